@@ -874,7 +874,7 @@ def knot_refinement(degree, knotvector, ctrlpts, **kwargs):
 
     # Add additional knots to be refined
     if add_knot_list:
-        knot_list += list(add_knot_list)
+        knot_list = list(knot_list) + list(add_knot_list)
 
     # Sort the list and convert to a set to make sure that the values are unique
     knot_list = sorted(set(knot_list))
